@@ -53,7 +53,19 @@ def builtin_classes():
     return {
         100: BaseException, 101: Exception, 102: KeyboardInterrupt, 103: GeneratorExit,
         104: asyncio.CancelledError, 105: KeyError, 106: LookupError, 107: ValueError, 108: SystemExit,
+        # what asyncio.TaskGroup, anyio and trio raise, also when a single thing went wrong
+        109: ExceptionGroup, 110: BaseExceptionGroup,
     }
+
+
+def construct_exc(cls, text):
+    """an instance of an exception class of the table: groups wrap exactly one member (sometimes a group again)"""
+    if issubclass(cls, BaseExceptionGroup):
+        member = ValueError("member of " + text)
+        if len(text) % 2:
+            member = ExceptionGroup("inner group of " + text, [member])
+        return cls(text, [member])
+    return cls(text)
 
 
 class Runtime:
@@ -86,6 +98,7 @@ class Runtime:
             self.cls_id[k] = c["id"]
         self.excs = {e["id"]: e for e in env["excs"]}
         self.made = {}  # id(obj) -> exc id  (objects kept alive in self.keep)
+        self.same_exc = {}
         self.keep = []
         self.ser_calls = 0
         self.ext_calls = 0
@@ -133,8 +146,18 @@ class Runtime:
 
     # exceptions -----------------------------------------------------------------------
     def make_exc(self, i):
+        if i >= 8 and self.env.get("sameExcObj") and i in self.same_exc:
+            # a callback that fails with the very same exception object every time (`future.result()` of a failed future, a
+            # cached error, a module-level sentinel exception)
+            return self.same_exc[i]
+        obj = self._make_exc(i)
+        if i >= 8:
+            self.same_exc[i] = obj
+        return obj
+
+    def _make_exc(self, i):
         e = self.excs[i]
-        obj = self.classes[e["cls"]]("exc%d" % i) if not issubclass(self.classes[e["cls"]], KeyError) else self.classes[e["cls"]]("exc%d" % i)
+        obj = construct_exc(self.classes[e["cls"]], "exc%d" % i)
         try:
             obj._s = e["str"]
             obj._base = bool(e.get("str_base"))
@@ -226,6 +249,10 @@ class Runtime:
 
                 def __repr__(self):
                     return "Dest(%d)" % d
+
+            if self.env.get("eqDests"):
+                Dest.__eq__ = lambda self_, other: type(other).__name__ == "Dest"
+                Dest.__hash__ = lambda self_: 7
 
             self.dests[d] = Dest()
         return self.dests[d]
